@@ -1122,6 +1122,7 @@ package rueidis
 //@   assert [C11 a-missed-command-is-reported-under-its-own-position] at append#2: len(arg1) == 1 && arg1[0] == i && 0 <= i && i < len(multi)
 //@   assert [C11 a-hit-of-the-first-pass-fills-its-own-position] at NewResult#1: 0 <= i && i < len(multi)
 //@   assert [C11 the-second-pass-looks-up-the-command-of-the-reported-position] at CacheKey#2: arg0 == multi[i].Cmd
+//@   assert [C11 a-pending-entry-met-in-the-second-pass-is-registered-under-its-own-position] at AddUint32#2: v.typ == 0 ==> (has(entries, i) && entries[i] == asiface(e))
 //@ func pipe.DoMultiCache #c11
 //@   option opaque-pkgs=github.com/redis/rueidis/internal/cmds
 //@   modifies *
